@@ -366,10 +366,8 @@ def mk_routing_filtered(n, mb, size):
         # filter (partition NUMBERS) to SimpleShuffle._shuffle_group, which applies it to the stage's DIGIT keys 0..k-1; a selection that does not
         # contain every digit makes the split tasks fail with KeyError.
         bug = int(staged and m == n and not set(range(ksplit)) <= set(sel))
-        flag = e.int("stage_filter_bug", 0, 1)
+        flag = e.int("stage_filter_bug", 0, 1)      # (repaired in /repo: nothing is skipped in this region any more)
         e.assume(lambda: flag == bug)
-        if bug:
-            return "known"
         fname = ts.frame._name
         inputs = {(fname, i): Rows([(0, p)] if i == src else []) for i in range(n)}
         cache = {}
@@ -869,7 +867,10 @@ def mk_sort_api(maxnp, maxn, kind, full=False):
         df = pd.DataFrame({"k": sort_keys(kind, rk, nan_top, nonlex), "k2": [(2 * i + 1) % 3 for i in range(N)], "x": range(N)})
         ddf = make_ddf(df, sizes)
         n = len(sizes)
-        order = not any(known.values())
+        # na_first_bug was repaired in /repo; the other three regions are open known findings (known_findings.json): inside them the order
+        # assertion is postponed to the end of the path, so that everything else is decided first
+        open_region = bool(known["all_na_partition"] or known["presorted_na_bug"] or known["cat_order_bug"])
+        order = not open_region
         o = _offset(sizes, rk)
         obs = []
         for ai, asc in enumerate((True, False)):
@@ -900,6 +901,18 @@ def mk_sort_api(maxnp, maxn, kind, full=False):
                 raise
             except Exception as ex:
                 raise Violation(f"{what}: {type(ex).__name__}: {ex}")
+        if open_region:
+            # last: the order assertion inside the open known-finding regions (reported as KNOWN-FINDING, never skipped silently)
+            for asc in (True, False):
+                pos_ = nap or "last"
+                what = f"sort_values('k', ascending={asc}, na_position={pos_!r}) of partitions {sizes}, keys {list(df.k)}"
+                try:
+                    out = ddf.sort_values("k", ascending=asc, na_position=pos_)
+                    _check_sorted(out, df, ["k"], asc, pos_, what, True)
+                except Violation:
+                    raise
+                except Exception as ex:
+                    raise Violation(f"{what}: {type(ex).__name__}: {ex}")
         return obs
 
     def e2e(model):
